@@ -22,6 +22,37 @@ OPS == INSTANCE Ops
 Empty == [t |-> "empty"]
 IsO(v) == v.t = "obj"
 
+(* Source positions and the call stack (property C19).  All of it is optional: a node  *)
+(* may carry "pos" (offset of its first token in its source text, 1-based, in code     *)
+(* units; for a member, call, assignment or binary expression that is the first token  *)
+(* of its leftmost operand, grouping parentheses skipped; for `new` the first token of  *)
+(* the constructor expression) and an eval node "file" (index of the eval source in    *)
+(* the case's table of source texts; the program itself is file 1).  Trees without     *)
+(* these fields (C01, C17, C18, C20) evaluate exactly as before.                        *)
+(* st.fr is the stack of active calls, outermost first: [fn: declared name, nat: a      *)
+(* built-in/host function, file, off: where execution stands in that frame = the       *)
+(* position of the call (or other construct) it is evaluating; 0 = none yet; of: the    *)
+(* file in which off was measured (differs from file only under a named deviation)].    *)
+Pos(node) == IF "pos" \in DOMAIN node THEN node.pos ELSE 0
+FileOf(node) == IF "file" \in DOMAIN node THEN node.file ELSE 1
+UserFrame(name, file) == [fn |-> name, nat |-> FALSE, file |-> file, of |-> file, off |-> 0]
+NativeFrame == [fn |-> <<>>, nat |-> TRUE, file |-> 0, of |-> 0, off |-> 0]
+PushFrame(st, f) == [st EXCEPT !.fr = Append(@, f)]
+(* the running frame now stands at (cx.file, off).  D19_eval_leaves_frame_file: otto   *)
+(* keeps a file per frame which only function entry and eval code set (see "eval")      *)
+SetSite(st, cx, off) ==
+    [st EXCEPT !.fr[Len(st.fr)] = [@ EXCEPT !.off = off, !.of = cx.file, !.file = IF D("D19_eval_leaves_frame_file") THEN @ ELSE cx.file]]
+(* the stack trace an error object captures when it is created: innermost frame first,  *)
+(* then the callers, at most st.tlimit frames when the limit is positive (otto.          *)
+(* SetStackTraceLimit; 0 or negative = no limit).  A frame whose off is negative exists *)
+(* only under D19_nonref_callee_site_dropped: such a caller is left out of the trace     *)
+(* (yet counted against the limit).                                                     *)
+RECURSIVE OuterFrames(_, _, _)
+OuterFrames(fr, i, lim) ==
+    IF i = 0 \/ lim - 1 = 0 THEN <<>>
+    ELSE (IF fr[i].off >= 0 THEN <<fr[i]>> ELSE <<>>) \o OuterFrames(fr, i - 1, lim - 1)
+CaptureTrace(st) == <<st.fr[Len(st.fr)]>> \o OuterFrames(st.fr, Len(st.fr) - 1, st.tlimit)
+
 (* well-known object ids of the initial heap *)
 ObjectProto == 1
 FunctionProto == 2
@@ -86,8 +117,12 @@ ErrProtoId(st, name) ==      \* the prototype object of the named error construc
         c == g.d.v
         p == OM!GetProp(st.H, c.id, S_prototype)
     IN  p.d.v.id
+(* an Error instance remembers the trace captured at its creation and (for the named    *)
+(* deviation D19_error_text_from_construction) the name and message it was created with *)
+ErrObj(st, protoId, cname, cmsg) ==
+    [OM!NewObj("Error", protoId) EXCEPT !.fn = [k |-> "error", trace |-> CaptureTrace(st), cname |-> cname, cmsg |-> cmsg]]
 MkError(st, name, msg) ==
-    LET a == Alloc(st, [OM!NewObj("Error", ErrProtoId(st, name)) EXCEPT !.fn = [k |-> "error"]])
+    LET a == Alloc(st, ErrObj(st, ErrProtoId(st, name), name, StrV(msg)))
         H2 == IF msg = <<>> THEN a.st.H ELSE DefData(a.st.H, a.id, S_message, StrV(msg), TRUE, FALSE, TRUE)
     IN  [st |-> SetH(a.st, H2), v |-> ObjV(a.id)]
 (* errors raised by the interpreter itself: ES5 does not specify the message text, *)
@@ -95,7 +130,16 @@ MkError(st, name, msg) ==
 ThrowErr(st, name) ==
     LET e == MkError(st, name, <<>>)
         H2 == DefData(e.st.H, e.v.id, S_message, [t |-> "unmodelled"], TRUE, FALSE, TRUE)
-    IN  Thr(SetH(e.st, H2), e.v)
+    IN  Thr([SetH(e.st, H2) EXCEPT !.H[e.v.id].fn.cmsg = [t |-> "unmodelled"]], e.v)
+(* the same, raised while evaluating the construct at (cx.file, off): the innermost     *)
+(* frame of the trace stands there (the frame itself is not moved)                      *)
+ThrowErrAt(st, cx, name, off) ==
+    LET t == ThrowErr(SetSite(st, cx, off), name) IN [t EXCEPT !.st.fr = st.fr]
+(* D19_array_length_rangeerror_no_message: an error created with the empty message text *)
+(* (which D19_empty_message_undefined turns into the value undefined)                    *)
+ThrowErrNoMsg(st, name) ==
+    LET e == MkError(st, name, <<>>)
+    IN  Thr(SetH(e.st, DefData(e.st.H, e.v.id, S_message, IF D("D19_empty_message_undefined") THEN Undef ELSE StrV(<<>>), TRUE, FALSE, TRUE)), e.v)
 
 -----------------------------------------------------------------------------
 RECURSIVE Eval(_, _, _)            \* (node, cx, st) -> [st, v, thr]
@@ -146,7 +190,9 @@ ObjPut(st, o, p, v) ==
         st1 == IF mp # <<>> /\ OM!HasOwn(st.H, o, p) THEN EnvSetBinding(st, st.H[o].fn.env, mp, v) ELSE st
         r == OM!PutReq(st1.H, o, p, v, ObjV(o))
     IN  IF r.k = "call" THEN (LET c == Call(st1, r.f, r.this, r.args) IN IF c.thr # "" THEN c ELSE Ok(c.st, v))   \* 8.12.5: setter
-        ELSE IF r.thr = "RangeError" THEN ThrowErr(SetH(st1, r.H), S_RangeError)
+        ELSE IF r.thr = "RangeError"                                \* 15.4.5.1 step 3.d
+             THEN (IF D("D19_array_length_rangeerror_no_message") THEN ThrowErrNoMsg(SetH(st1, r.H), S_RangeError)
+                   ELSE ThrowErr(SetH(st1, r.H), S_RangeError))
         ELSE IF r.thr # "" THEN Und(st)
         ELSE Ok(SetH(st1, r.H), v)
 
@@ -187,6 +233,8 @@ GetValue(st, ref) ==
             IF IsO(ref.base) THEN
                 (IF Unmodelled(st, ref.base.id, ref.n) THEN Und(st) ELSE ObjGet(st, ref.base.id, ref.n))
             ELSE IF ref.base.t = "str" /\ ref.n = S_length THEN Ok(st, IntV(Len(ref.base.s)))
+            ELSE IF ref.base.t = "num" /\ st.numproto # 0 /\ OM!HasOwn(st.H, st.numproto, ref.n)
+                 THEN ObjGet(st, st.numproto, ref.n)            \* 8.7.1 step 4 with the (partly) modelled Number.prototype
             ELSE Und(st)
 
 (* 8.7.2 PutValue (non-strict) *)
@@ -197,9 +245,9 @@ PutValue(st, ref, v) ==
 
 -----------------------------------------------------------------------------
 (* 13.2 Creating function objects *)
-MakeFunction(st, params, body, scope, name) ==
+MakeFunction(st, params, body, scope, name, file) ==
     LET f == Alloc(st, [OM!NewObj("Function", FunctionProto) EXCEPT
-                          !.fn = [k |-> "user", params |-> params, body |-> body, scope |-> scope, name |-> name]])
+                          !.fn = [k |-> "user", params |-> params, body |-> body, scope |-> scope, name |-> name, file |-> file]])
         p == Alloc(f.st, OM!NewObj("Object", ObjectProto))
         H1 == DefData(p.st.H, f.id, S_length, IntV(Len(params)), FALSE, FALSE, FALSE)
         H2 == DefData(H1, p.id, S_constructor, ObjV(f.id), TRUE, FALSE, TRUE)
@@ -287,7 +335,7 @@ BindFns(st0, fds, i, env, cx, configurable) ==
     ELSE LET st == [st0 EXCEPT !.poll = @ + 1] IN
          IF st.poll = st.abortAt THEN [st EXCEPT !.aborted = TRUE]
     ELSE LET fd == fds[i]
-             mk == MakeFunction(st, fd.params, fd.body, cx.lex, fd.name)
+             mk == MakeFunction(st, fd.params, fd.body, cx.lex, fd.name, cx.file)
              st1 == IF st.E[env].k = "decl"
                     THEN (IF fd.name \in DOMAIN mk.st.E[env].b
                           THEN EnvSetBinding(mk.st, env, fd.name, mk.v)
@@ -411,7 +459,9 @@ ObjectFn(st, name, args) ==
                      ELSE LET d == ToPropDesc(k.st, SeqGet(args, 3))
                           IN  IF d.thr # "" THEN [st |-> d.st, v |-> d.v, thr |-> d.thr]
                               ELSE LET r == OM!DefineOwn(d.st.H, a1.id, k.v.s, d.d)
-                                   IN  IF r.thr = "RangeError" THEN ThrowErr(SetH(d.st, r.H), S_RangeError)
+                                   IN  IF r.thr = "RangeError"
+                                       THEN (IF D("D19_array_length_rangeerror_no_message") THEN ThrowErrNoMsg(SetH(d.st, r.H), S_RangeError)
+                                             ELSE ThrowErr(SetH(d.st, r.H), S_RangeError))
                                        ELSE IF r.thr # "" THEN Und(d.st)
                                        ELSE IF ~r.ok THEN ThrowErr(SetH(d.st, r.H), S_TypeError)
                                        ELSE Ok(SetH(d.st, r.H), a1))
@@ -422,7 +472,7 @@ CallUser(st, fid, thisV, args) ==
     LET fn == st.H[fid].fn
         e  == NewDeclEnv(st, fn.scope)
         st1 == BindParams(e.st, fn.params, args, 1, e.id)
-        cx == [lex |-> e.id, var |-> e.id, this |-> IF thisV.t \in {"undef", "null"} THEN ObjV(GlobalObj) ELSE thisV]
+        cx == [lex |-> e.id, var |-> e.id, this |-> IF thisV.t \in {"undef", "null"} THEN ObjV(GlobalObj) ELSE thisV, file |-> fn.file]
         st2 == BindFns(st1, FunDecls(fn.body), 1, e.id, cx, FALSE)
         ao == MakeArguments(st2, fid, args, e.id, fn.params)
         st3 == IF S_arguments \in DOMAIN ao.st.E[e.id].b THEN st2
@@ -450,13 +500,55 @@ ListFromArrayLike(st, o, i, len, acc) ==
 Call(st0, f, thisV, args) ==
     IF ~IsCallableV(st0, f) THEN ThrowErr(st0, S_TypeError)
     ELSE IF st0.H[f.id].fn.k # "bound" /\ st0.limit > 0 /\ st0.depth + 1 >= st0.limit THEN ThrowErr(st0, S_RangeError)
-    ELSE LET r == CallIn(IF st0.H[f.id].fn.k = "bound" THEN st0 ELSE [st0 EXCEPT !.depth = @ + 1], f, thisV, args)
-         IN  [r EXCEPT !.st.depth = st0.depth]
+    ELSE LET fn == st0.H[f.id].fn
+             \* the callee becomes the innermost active call (a bound function adds no frame of its own)
+             st1 == IF fn.k = "bound" THEN st0
+                    ELSE PushFrame([st0 EXCEPT !.depth = @ + 1], IF fn.k = "user" THEN UserFrame(fn.name, fn.file) ELSE NativeFrame)
+             r == CallIn(st1, f, thisV, args)
+         IN  [r EXCEPT !.st.depth = st0.depth, !.st.fr = st0.fr]
+
+(* 15.4.4.18 Array.prototype.forEach, steps 7.a-7.c.ii *)
+RECURSIVE ForEach(_, _, _, _, _, _)
+ForEach(st, o, k, len, cb, t) ==
+    IF k >= len THEN Ok(st, Undef)
+    ELSE IF ~OM!HasProperty(st.H, o, DigitsNat(k)) THEN ForEach(st, o, k + 1, len, cb, t)
+    ELSE LET g == OM!GetProp(st.H, o, DigitsNat(k))
+         IN  IF g.d.k # "data" THEN Und(st)                  \* an accessor element: not modelled here
+             ELSE LET c == Call(st, cb, t, <<g.d.v, IntV(k), ObjV(o)>>)
+                  IN  IF c.thr # "" THEN c ELSE ForEach(c.st, o, k + 1, len, cb, t)
+
+(* 15.12.3 JSON.stringify as far as C19 needs it: the abstract operations Str/JO/JA walk *)
+(* the own enumerable properties depth first and throw a TypeError when a value is      *)
+(* already on the stack (JO/JA step 1).  Only the question "is the structure cyclic" is *)
+(* answered; everything else leaves the modelled fragment.                              *)
+RECURSIVE JsonWalk(_, _, _)        \* -> "ok" | "cyclic" | "und"
+RECURSIVE JsonWalkKeys(_, _, _, _, _)
+JsonWalk(st, v, stack) ==
+    IF ~IsO(v) THEN "ok"
+    ELSE IF st.H[v.id].cls \notin {"Object", "Array"} \/ OM!HasProperty(st.H, v.id, S_toJSON) THEN "und"
+    ELSE IF v.id \in stack THEN "cyclic"
+    ELSE JsonWalkKeys(st, v.id, OM!OwnKeys(st.H, v.id), 1, stack \cup {v.id})
+JsonWalkKeys(st, o, keys, i, stack) ==
+    IF i > Len(keys) THEN "ok"
+    ELSE LET pr == OM!OwnProp(st.H, o, keys[i])
+         IN  IF pr.k # "data" THEN "und"
+             ELSE LET r == JsonWalk(st, pr.v, stack)
+                  IN  IF r # "ok" THEN r ELSE JsonWalkKeys(st, o, keys, i + 1, stack)
 
 CallIn(st, f, thisV, args) ==
     LET fn == st.H[f.id].fn
     IN  CASE fn.k = "user" -> CallUser(st, f.id, thisV, args)
           [] fn.k = "host" -> Ok([st EXCEPT !.log = Append(@, ProjSeq(st, args))], SeqGet(args, 1))
+          [] fn.k = "hostcb" -> Call(st, SeqGet(args, 1), Undef, <<>>)      \* C19 host function CB(f): calls f() and returns its result
+          [] fn.k = "hostmsg" ->       \* C19 probe M(e): "e.message is a non-empty string".  ES5 does not fix the
+                                       \* message text of the errors the interpreter raises, C19 demands it is not empty.
+             LET e == SeqGet(args, 1)
+             IN  IF ~IsO(e) THEN Und(st)
+                 ELSE LET g == OM!GetProp(st.H, e.id, S_message)
+                      IN  IF ~g.has THEN Ok(st, BoolV(FALSE))
+                          ELSE IF g.d.k # "data" THEN Und(st)                 \* an accessor: not modelled here
+                          ELSE IF g.d.v.t = "unmodelled" THEN Ok(st, BoolV(TRUE))
+                          ELSE Ok(st, BoolV(g.d.v.t = "str" /\ g.d.v.s # <<>>))
           [] fn.k = "bound" -> Call(st, fn.target, fn.this, fn.args \o args)
           [] fn.k = "builtin" ->
              (CASE fn.name = "call" -> Call(st, thisV, SeqGet(args, 1), IF Len(args) > 1 THEN SubSeq(args, 2, Len(args)) ELSE <<>>)
@@ -510,6 +602,31 @@ CallIn(st, f, thisV, args) ==
                       IF SeqGet(args, 1).t \in {"undef", "null"} THEN (LET o == NewPlain(st, ObjectProto) IN Ok(o.st, ObjV(o.id)))
                       ELSE IF IsO(args[1]) THEN Ok(st, args[1]) ELSE Und(st)
                 [] fn.name = "ErrorCtor" -> Construct(st, f, args)      \* 15.11.1: same as new
+                [] fn.name = "AP_forEach" ->                            \* 15.4.4.18 (arrays of at most 20 elements)
+                      IF ~IsO(thisV) \/ st.H[thisV.id].cls # "Array" THEN Und(st)
+                      ELSE LET n == OM!ArrLen(st.H, thisV.id)
+                           IN  IF n.c # "int" \/ n.v > 20 THEN Und(st)
+                               ELSE IF ~IsCallableV(st, SeqGet(args, 1)) THEN ThrowErr(st, S_TypeError)      \* step 4
+                               ELSE ForEach(st, thisV.id, 0, n.v, args[1], SeqGet(args, 2))
+                [] fn.name \in {"NP_toString", "NP_toFixed", "NP_toExponential", "NP_toPrecision"} ->
+                      \* 15.7.4.2, .5, .6, .7 on finite Number primitives: only the argument check is modelled.
+                      \* (ES5 permits an implementation to EXTEND the precision ranges; C19 generates only
+                      \* arguments the implementation does not claim to support.)
+                      IF thisV.t # "num" \/ thisV.n.c \notin {"int", "big", "nzero"} THEN Und(st)
+                      ELSE LET a == SeqGet(args, 1)
+                           IN  IF a.t # "num" \/ a.n.c # "int" THEN Und(st)              \* ToInteger of small integers only
+                               ELSE LET an == Ok(st, a)
+                                    IN  IF an.thr # "" THEN an
+                                        ELSE LET i == an.v.n.v
+                                                 bad == CASE fn.name = "NP_toString" -> i < 2 \/ i > 36          \* 15.7.4.2
+                                                          [] fn.name = "NP_toFixed" -> i < 0 \/ i > 20           \* 15.7.4.5 step 2
+                                                          [] fn.name = "NP_toExponential" -> i < 0 \/ i > 20     \* 15.7.4.6 step 7
+                                                          [] OTHER -> i < 1 \/ i > 21                           \* 15.7.4.7 step 8
+                                             IN  IF bad THEN ThrowErr(an.st, S_RangeError) ELSE Und(an.st)
+                [] fn.name = "JSON_stringify" ->                        \* 15.12.3 (cyclic structures only)
+                      IF Len(args) # 1 THEN Und(st)
+                      ELSE IF JsonWalk(st, args[1], {}) = "cyclic" THEN ThrowErr(st, S_TypeError) ELSE Und(st)
+                [] fn.name = "FunctionCtor" -> Und(st)                  \* only through the "fnctor" node
                 [] fn.name \in ObjectFnNames -> ObjectFn(st, fn.name, args)
                 [] OTHER -> Und(st))
           [] OTHER -> Und(st)
@@ -531,9 +648,11 @@ Construct(st, f, args) ==
              LET stD == [st EXCEPT !.depth = @ + 1]
                  m == IF SeqGet(args, 1).t = "undef" THEN Ok(stD, StrV(<<>>)) ELSE ToStr(stD, args[1])
              IN  IF m.thr # "" THEN [m EXCEPT !.st.depth = st.depth]
-                 ELSE LET a == Alloc(m.st, [OM!NewObj("Error", fn.proto) EXCEPT !.fn = [k |-> "error"]])
+                 ELSE LET a == Alloc(m.st, ErrObj(m.st, fn.proto, IF fn.proto = ErrorProto THEN S_Error ELSE ErrorNames[1 + (fn.proto - 16) \div 2], m.v))
+                          \* 15.11.2.1: message is ToString(argument).  D19_empty_message_undefined: otto stores
+                          \* the value undefined when that string is empty
                           H2 == IF SeqGet(args, 1).t = "undef" THEN a.st.H
-                                ELSE DefData(a.st.H, a.id, S_message, m.v, TRUE, FALSE, TRUE)
+                                ELSE DefData(a.st.H, a.id, S_message, IF m.v.s = <<>> /\ D("D19_empty_message_undefined") THEN Undef ELSE m.v, TRUE, FALSE, TRUE)
                       IN  Ok([SetH(a.st, H2) EXCEPT !.depth = st.depth], ObjV(a.id))
           [] OTHER -> IF fn.k \in {"host", "builtin"} THEN Und(st) ELSE ThrowErr(st, S_TypeError)
 
@@ -594,6 +713,17 @@ UnaryOp(st, op, v) ==
 
 -----------------------------------------------------------------------------
 (* 11: expressions *)
+Site(st, cx, off) == IF off = 0 THEN st ELSE SetSite(st, cx, off)       \* trees without positions: nothing to record
+(* 8.7.1 GetValue of the reference the expression `node` evaluated to (step 3: the      *)
+(* ReferenceError is raised at that expression)                                          *)
+GetValueAt(st, cx, ref, node) ==
+    IF ref.k = "unres" THEN ThrowErrAt(st, cx, S_ReferenceError, Pos(node)) ELSE GetValue(st, ref)
+Bad(node) == IF "bad" \in DOMAIN node THEN node.bad ELSE ""
+(* the position a call or new expression records as its call site.                      *)
+(* D19_nonref_callee_site_dropped: otto records one only when the callee expression is  *)
+(* an identifier or a member expression (-1 otherwise)                                  *)
+CallSite(node) == IF node.f.k \notin {"id", "dot", "idx"} /\ D("D19_nonref_callee_site_dropped") THEN -1 ELSE Pos(node)
+
 EvalArgs(nodes, i, cx, st, acc) ==
     IF i > Len(nodes) THEN [st |-> st, l |-> acc, thr |-> "", v |-> Undef]
     ELSE LET r == Eval(nodes[i], cx, st)
@@ -610,7 +740,7 @@ EvalRef(node, cx, st) ==
             IN  IF b.thr # "" THEN RefFail(b)
                 ELSE LET p == IF node.k = "dot" THEN Ok(b.st, StrV(node.n)) ELSE Eval(node.p, cx, b.st)
                      IN  IF p.thr # "" THEN RefFail(p)
-                         ELSE IF b.v.t \in {"undef", "null"} THEN RefFail(ThrowErr(p.st, S_TypeError))   \* CheckObjectCoercible
+                         ELSE IF b.v.t \in {"undef", "null"} THEN RefFail(ThrowErrAt(p.st, cx, S_TypeError, Pos(node)))   \* CheckObjectCoercible
                          ELSE LET nm == ToStr(p.st, p.v)
                               IN  IF nm.thr # "" THEN RefFail(nm)
                                   ELSE RefRes(nm.st, [k |-> "prop", base |-> b.v, n |-> nm.v.s, envobj |-> FALSE, withThis |-> FALSE])
@@ -656,11 +786,14 @@ EvalBody(node, cx, st) ==
       [] node.k = "this" -> IF IsO(cx.this) THEN Ok(st, cx.this) ELSE Und(st)
       [] node.k \in {"id", "dot", "idx"} ->
             LET r == EvalRef(node, cx, st)
-            IN  IF r.thr # "" THEN [st |-> r.st, v |-> r.v, thr |-> r.thr] ELSE GetValue(r.st, r.ref)
+            IN  IF r.thr # "" THEN [st |-> r.st, v |-> r.v, thr |-> r.thr]
+                \* a member expression is where an accessor's getter is called from (8.12.3).
+                \* D19_getter_site_not_recorded: otto records no position for that call
+                ELSE GetValueAt(IF node.k = "id" \/ D("D19_getter_site_not_recorded") THEN r.st ELSE Site(r.st, cx, Pos(node)), cx, r.ref, node)
       [] node.k = "fn" ->                                                    \* 13
-            IF node.name = <<>> THEN (LET f == MakeFunction(st, node.params, node.body, cx.lex, <<>>) IN Ok(f.st, f.v))
+            IF node.name = <<>> THEN (LET f == MakeFunction(st, node.params, node.body, cx.lex, <<>>, cx.file) IN Ok(f.st, f.v))
             ELSE LET e == NewDeclEnv(st, cx.lex)
-                     f == MakeFunction(e.st, node.params, node.body, e.id, node.name)
+                     f == MakeFunction(e.st, node.params, node.body, e.id, node.name, cx.file)
                  IN  Ok(CreateBinding(f.st, e.id, node.name, f.v, FALSE, FALSE), f.v)
       [] node.k = "obj" -> (LET o == NewPlain(st, ObjectProto) IN ObjLitProps(node.pr, 1, cx, o.st, o.id))
       [] node.k = "arr" ->
@@ -688,7 +821,7 @@ EvalBody(node, cx, st) ==
       [] node.k = "upd" ->                                                    \* 11.3, 11.4.4-5
             LET r == EvalRef(node.e, cx, st)
             IN  IF r.thr # "" THEN [st |-> r.st, v |-> r.v, thr |-> r.thr]
-                ELSE LET g == GetValue(r.st, r.ref)
+                ELSE LET g == GetValueAt(r.st, cx, r.ref, node.e)
                      IN  IF g.thr # "" THEN g
                          ELSE LET old == ToNum(g.st, g.v)
                               IN  IF old.thr # "" THEN old
@@ -699,7 +832,11 @@ EvalBody(node, cx, st) ==
             LET l == Eval(node.l, cx, st)
             IN  IF l.thr # "" THEN l
                 ELSE LET r == Eval(node.r, cx, l.st)
-                     IN  IF r.thr # "" THEN r ELSE BinaryOp(r.st, node.op, l.v, r.v)
+                     \* the operator is applied at the binary expression: the TypeError of in / instanceof
+                     \* (11.8.6 step 5, 11.8.7 step 5) and calls of valueOf / toString come from there.
+                     \* D19_binary_operator_site_not_recorded: otto records no position for them
+                     IN  IF r.thr # "" THEN r
+                         ELSE BinaryOp(IF D("D19_binary_operator_site_not_recorded") THEN r.st ELSE Site(r.st, cx, Pos(node)), node.op, l.v, r.v)
       [] node.k = "logic" ->                                                  \* 11.11
             LET l == Eval(node.l, cx, st)
             IN  IF l.thr # "" THEN l
@@ -712,43 +849,74 @@ EvalBody(node, cx, st) ==
       [] node.k = "asg" ->                                                    \* 11.13
             LET r == EvalRef(node.l, cx, st)
             IN  IF r.thr # "" THEN [st |-> r.st, v |-> r.v, thr |-> r.thr]
+                \* PutValue happens at the assignment expression: a setter is called from there and
+                \* the RangeError of an invalid array length (15.4.5.1) is raised there.
+                \* D19_assignment_site_not_recorded: otto records no position for either
                 ELSE IF node.op = "=" THEN
-                    (LET v == Eval(node.r, cx, r.st) IN IF v.thr # "" THEN v ELSE PutValue(v.st, r.ref, v.v))
-                ELSE LET g == GetValue(r.st, r.ref)                          \* 11.13.2: lval before the right operand
+                    (LET v == Eval(node.r, cx, r.st)
+                     IN  IF v.thr # "" THEN v
+                         ELSE PutValue(IF D("D19_assignment_site_not_recorded") THEN v.st ELSE Site(v.st, cx, Pos(node)), r.ref, v.v))
+                ELSE LET g == GetValueAt(r.st, cx, r.ref, node.l)                          \* 11.13.2: lval before the right operand
                      IN  IF g.thr # "" THEN g
                          ELSE LET v == Eval(node.r, cx, g.st)
                               IN  IF v.thr # "" THEN v
                                   ELSE LET b == BinaryOp(v.st, node.op, g.v, v.v)
-                                       IN  IF b.thr # "" THEN b ELSE PutValue(b.st, r.ref, b.v)
+                                       IN  IF b.thr # "" THEN b
+                                           ELSE PutValue(IF D("D19_assignment_site_not_recorded") THEN b.st ELSE Site(b.st, cx, Pos(node)), r.ref, b.v)
       [] node.k = "call" ->                                                   \* 11.2.3
             LET isRef == node.f.k \in {"id", "dot", "idx"}
                 fr == IF isRef THEN EvalRef(node.f, cx, st) ELSE [st |-> st, thr |-> ""]
             IN  IF fr.thr # "" THEN [st |-> fr.st, v |-> fr.v, thr |-> fr.thr]
-                ELSE LET fv == IF isRef THEN GetValue(fr.st, fr.ref) ELSE Eval(node.f, cx, st)
+                ELSE LET fv == IF isRef THEN GetValueAt(fr.st, cx, fr.ref, node.f) ELSE Eval(node.f, cx, st)
                      IN  IF fv.thr # "" THEN fv
                          ELSE LET a == EvalArgs(node.args, 1, cx, fv.st, <<>>)
                               IN  IF a.thr # "" THEN [st |-> a.st, v |-> a.v, thr |-> a.thr]
-                                  ELSE Call(a.st, fv.v, IF isRef THEN ThisOfRef(fr.ref) ELSE Undef, a.l)
+                                  \* the caller now stands at this call: its position is the call site of the
+                                  \* callee's frame, and where "not a function" (11.2.3 step 4-5) is raised
+                                  ELSE Call(Site(a.st, cx, CallSite(node)), fv.v, IF isRef THEN ThisOfRef(fr.ref) ELSE Undef, a.l)
       [] node.k = "new" ->                                                    \* 11.2.2
             LET fv == Eval(node.f, cx, st)
             IN  IF fv.thr # "" THEN fv
                 ELSE LET a == EvalArgs(node.args, 1, cx, fv.st, <<>>)
                      IN  IF a.thr # "" THEN [st |-> a.st, v |-> a.v, thr |-> a.thr]
-                         ELSE IF ~IsO(fv.v) THEN ThrowErr(a.st, S_TypeError)
-                         ELSE Construct(a.st, fv.v, a.l)
+                         ELSE IF ~IsO(fv.v) THEN ThrowErr(Site(a.st, cx, CallSite(node)), S_TypeError)
+                         ELSE Construct(Site(a.st, cx, CallSite(node)), fv.v, a.l)
       [] node.k = "eval" ->                                                   \* 15.1.2.1, 10.4.2
             \* direct: the caller's context; indirect: the global context
             \* stack depth: a direct eval runs in the caller's context; an indirect one is a native
             \* call that then enters the global context (two levels)
-            LET ecx == IF node.direct THEN cx ELSE [lex |-> GlobalEnv, var |-> GlobalEnv, this |-> ObjV(GlobalObj)]
+            \* call stack (C19): eval(...) is a call whose site is the eval expression.  A direct eval runs
+            \* the eval code in the caller's frame, which then stands at positions of the eval source
+            \* (D19_eval_leaves_frame_file: otto switches the frame's file there and never switches back);
+            \* an indirect eval is a call of the built-in function, which runs the code as global code.
+            \* "bad": the text does not parse: 15.1.2.1 step 3 SyntaxError; "lhs": it parses but assigns to
+            \* a non-reference, an early error (clause 16) of class ReferenceError (8.7.2 step 1)
+            \* (D19_eval_invalid_lhs_syntaxerror: otto reports a SyntaxError).
+            LET ecx == IF node.direct THEN [cx EXCEPT !.file = FileOf(node)]
+                       ELSE [lex |-> GlobalEnv, var |-> GlobalEnv, this |-> ObjV(GlobalObj), file |-> FileOf(node)]
                 extra == IF node.direct THEN 0 ELSE 2
+                stS == Site(st, cx, IF ~node.direct /\ D("D19_nonref_callee_site_dropped") THEN -1 ELSE Pos(node))
+                stE == IF node.direct
+                       THEN (IF D("D19_eval_leaves_frame_file") /\ Bad(node) = "" THEN [stS EXCEPT !.fr[Len(stS.fr)].file = FileOf(node)] ELSE stS)
+                       ELSE PushFrame(stS, NativeFrame)
             IN  IF extra > 0 /\ st.limit > 0 /\ st.depth + extra >= st.limit THEN ThrowErr(st, S_RangeError)
-                ELSE LET c == RunBody([st EXCEPT !.depth = @ + extra], node.prog, ecx, TRUE)
-                         stR == [c.st EXCEPT !.depth = st.depth]
+                ELSE IF Bad(node) # "" THEN
+                     (LET t == ThrowErr(stE, IF Bad(node) = "lhs" /\ ~D("D19_eval_invalid_lhs_syntaxerror") THEN S_ReferenceError ELSE S_SyntaxError)
+                      IN  [t EXCEPT !.st.fr = stS.fr])
+                ELSE LET c == RunBody([(IF node.direct THEN stE ELSE PushFrame(stE, UserFrame(<<>>, FileOf(node)))) EXCEPT !.depth = @ + extra], node.prog, ecx, TRUE)
+                         stR == [c.st EXCEPT !.depth = st.depth, !.fr = IF node.direct THEN @ ELSE stS.fr]
                      IN  CASE c.ty = "normal" -> Ok(stR, IF c.v = Empty THEN Undef ELSE c.v)
                            [] c.ty = "throw" -> Thr(stR, c.v)
                            [] c.ty = "interrupt" -> Intr(stR)
                            [] OTHER -> Und(stR)
+      [] node.k = "fnctor" ->                                                 \* 15.3.2.1: new Function(p, body) / Function(p, body)
+            \* only a body that does not parse is modelled (step 9-10: SyntaxError); called as a function
+            \* the built-in is an active call, as a constructor (like the Error constructors) it adds none
+            LET stS == Site(st, cx, Pos(node))
+            IN  IF Bad(node) = "" THEN Und(st)
+                ELSE LET t == ThrowErr(IF node.isNew THEN stS ELSE PushFrame(stS, NativeFrame),
+                                       IF Bad(node) = "lhs" /\ ~D("D19_eval_invalid_lhs_syntaxerror") THEN S_ReferenceError ELSE S_SyntaxError)
+                     IN  [t EXCEPT !.st.fr = stS.fr]
       [] OTHER -> Und(st)
 
 -----------------------------------------------------------------------------
@@ -1014,9 +1182,10 @@ Heap0 ==
 
 State0(fuel) ==
     [H |-> Heap0, E |-> <<[k |-> "obj", o |-> GlobalObj, withThis |-> FALSE, outer |-> 0]>>, log |-> <<>>, fuel |-> fuel,
-     poll |-> 0, abortAt |-> 0, aborted |-> FALSE, depth |-> 0, limit |-> 0]
+     poll |-> 0, abortAt |-> 0, aborted |-> FALSE, depth |-> 0, limit |-> 0,
+     fr |-> <<UserFrame(<<>>, 1)>>, tlimit |-> 0, numproto |-> 0]
 
-GlobalCx == [lex |-> GlobalEnv, var |-> GlobalEnv, this |-> ObjV(GlobalObj)]
+GlobalCx == [lex |-> GlobalEnv, var |-> GlobalEnv, this |-> ObjV(GlobalObj), file |-> 1]
 
 (* the observable outcome of running a program (property C01): host calls,   *)
 (* completion value, uncaught exception class                                *)
